@@ -114,6 +114,7 @@ func setHooks(rec *Recorder, att int, seed uint64) {
 
 // once goroutines have been seen left behind in several attempts the verdict is settled: keep the rest of the run short
 var leaksSeen int
+var socksLeftOpen int // attempts after which the connection to the master was still open when the wait ran out
 
 func noteLeak(n int) {
 	if n > 0 {
@@ -380,6 +381,7 @@ type AttemptPlan struct {
 	SkipError         bool // the caller does not call Error() after this attempt (Stream already returned an error)
 	HookTrace         bool // record the library's hook points of this attempt (implementation-level trace)
 	HookFuzz          uint64 // non-zero: seeded pseudo-random delays at every hook point
+	Expire            bool       // the attempt's context ends by DEADLINE (Err() = context.DeadlineExceeded) wherever the plan cancels it
 	Deadline          bool       // the attempt's context also carries a (far) deadline: context.WithTimeout instead of WithCancel only
 	MapperCancels     bool       // the table mapper cancels the attempt's context just before it fails (MapperFault)
 	LeakFirst         bool       // look for goroutines left behind BEFORE the first Error() call (a caller need not call Error() for them to go away)
@@ -394,7 +396,7 @@ func (a AttemptPlan) J() M {
 	m := M{"pacing": a.Pacing, "end": a.End, "connfault": orNone(a.ConnFault), "handlerErrAt": a.HandlerErrAt,
 		"mapperFault": orNone(a.MapperFault), "handlerErrKind": orNone(a.HandlerErrKind), "cancelAtTx": a.CancelAtTx, "cancelAtPkt": a.CancelAtPkt, "stallAfter": a.StallAfter, "detain": a.Detain,
 		"handlerBlock": a.HandlerBlock, "releaseDelayMs": a.ReleaseDelayMs, "scribble": a.Scribble, "scribbleLate": a.ScribbleLate, "dead": a.Dead, "cancelAfterReturn": a.CancelAfterReturn,
-		"logDelayMs": a.LogDelayMs, "skipError": a.SkipError, "hookTrace": a.HookTrace, "hookFuzz": a.HookFuzz != 0, "scripted": a.Script != nil, "leakFirst": a.LeakFirst, "mapperCancels": a.MapperCancels, "deadline": a.Deadline, "script": scriptJ(a.Script)}
+		"logDelayMs": a.LogDelayMs, "skipError": a.SkipError, "hookTrace": a.HookTrace, "hookFuzz": a.HookFuzz != 0, "scripted": a.Script != nil, "leakFirst": a.LeakFirst, "mapperCancels": a.MapperCancels, "deadline": a.Deadline, "expire": a.Expire, "script": scriptJ(a.Script)}
 	if a.Fault != nil {
 		m["fault"] = M{"kind": a.Fault.Kind, "at": a.Fault.At, "code": int(a.Fault.Code), "msg": B(a.Fault.Msg)}
 	} else {
@@ -600,6 +602,31 @@ func errJ(err error) M {
 // scribbleTx overwrites every delivered value, each with a pattern of its own (a function of where the value sits in the
 // transaction: event j, row r, column c, after / before image), so that two values sharing storage cannot both end up with
 // the bytes they are expected to hold (spec: ScribbledEvs).
+// expiringCtx is a context that ends the way a context with a deadline does: Done() closes and Err() is DeadlineExceeded.
+type expiringCtx struct {
+	mu   sync.Mutex
+	done chan struct{}
+	err  error
+	at   time.Time
+}
+
+func (c *expiringCtx) Deadline() (time.Time, bool)       { return c.at, true }
+func (c *expiringCtx) Done() <-chan struct{}             { return c.done }
+func (c *expiringCtx) Value(key interface{}) interface{} { return nil }
+func (c *expiringCtx) Err() error {
+	c.mu.Lock()
+	defer c.mu.Unlock()
+	return c.err
+}
+func (c *expiringCtx) expire() {
+	c.mu.Lock()
+	defer c.mu.Unlock()
+	if c.err == nil {
+		c.err = context.DeadlineExceeded
+		close(c.done)
+	}
+}
+
 func scribbleTx(t *gobinlog.Transaction, pat byte) {
 	for j, e := range t.Events {
 		if c := e.Query.Charset; c != nil {
@@ -662,6 +689,11 @@ func (rs *runState) runAttempt(att int, a AttemptPlan, dsnOverride string) {
 
 	ctx, cancel := context.WithCancel(context.Background())
 	defer cancel()
+	if a.Expire {
+		// the caller's context ends by its deadline instead of a cancel call: wherever the plan cancels, the deadline "passes"
+		ec := &expiringCtx{done: make(chan struct{}), at: time.Now().Add(time.Hour)}
+		ctx, cancel = ec, ec.expire
+	}
 	if a.Deadline {
 		// a caller may bound the whole run: the deadline is far away and never fires during the attempt
 		var c2 context.CancelFunc
@@ -1103,6 +1135,10 @@ func (rs *runState) runAttempt(att int, a AttemptPlan, dsnOverride string) {
 			if !acc && returned {
 				return 150 * time.Millisecond
 			}
+			// once connections have been seen left open in several attempts the verdict is settled: keep the rest of the run short
+			if socksLeftOpen >= 3 && waitBound > 1500*time.Millisecond {
+				return 1500 * time.Millisecond
+			}
 			return waitBound
 		}()):
 		}
@@ -1111,6 +1147,9 @@ func (rs *runState) runAttempt(att int, a AttemptPlan, dsnOverride string) {
 		case <-connRec.Done:
 			masterEnded = true
 		default:
+		}
+		if !closed && !masterEnded {
+			socksLeftOpen++
 		}
 		cmds, sent := connRec.snapshot()
 		for i, c := range cmds {
